@@ -824,7 +824,7 @@ static std::string match(const vf::Violation& v, const vf::Case& c)
     // KF-C15-2 (D15 as far as it is real): set_max_search_space_size() does not clamp to n as the constructor does; with max > n the
     // restart test never fires in time and the basis handed to the operator has more than n columns. (With max <= n the extension
     // beyond n is transient: the restart at the top of the next iteration discards it before it is used.)
-    if (c.f("max_size") > n && c.f("max_size_seen") > n && !nan_within_n && (v.kind == "unit_norm" || v.kind == "orthonormality"))
+    if (c.f("max_size") > n && c.f("max_size_seen") > n && !nan_within_n && (v.kind == "unit_norm" || v.kind == "orthonormality" || v.kind == "nonfinite"))
         return "search_space_exceeds_n";
     // KF-C15-4: the first restart asks for initial-size Ritz vectors although the user's space had fewer columns
     // (the Ritz pairs of the previous iteration are fewer than that): out-of-range block. The operator has seen only the
